@@ -65,10 +65,15 @@ Print Assumptions C12_context_independent.
    returning current values, C12_context_independent, and nothing leaks, C12_discipline) *)
 Theorem C12_resize_in_context : forall s n, SInv s ->
   let s' := snd (sched_step s (AResize n)) in
-  SInv s' /\ sc_len s' = n /\ sc_data s' = sc_data s /\ sc_users s' = sc_users s /\
+  SInv s' /\ sc_len s' = n /\ sc_data s' = ctrunc (sc_data s) n /\ sc_users s' = sc_users s /\
   sc_gens s' = sc_gens s /\ sc_ctx s' = sc_ctx s.
 Proof. exact resize_step. Qed.
 Print Assumptions C12_resize_in_context.
+
+(* ... and the elements below the new length keep their values, the others are gone *)
+Theorem C12_resize_values : forall c n i, cget (ctrunc c n) i = if i <? n then cget c i else i.
+Proof. exact cget_ctrunc. Qed.
+Print Assumptions C12_resize_values.
 
 Example C12_example :
   basic_index [ISlice (Some 1) None (Some 2); IEllipsis; IInt (-1)] [5; 2; 3] = Ok ([2; 2], [8; 11; 20; 23]) /\
